@@ -3,6 +3,7 @@ from __future__ import annotations
 
 import ast
 import json
+import os
 import random
 import sys
 
@@ -10,7 +11,7 @@ from . import celx
 from .celx import ct
 from .core import Ctx, read_dump, write_ndjson, trace_verdict, pmap, big
 from .c06 import tokenize
-sys.path.insert(0, "/repo/src")
+sys.path.insert(0, os.environ.get("VERIF_REPO", "/repo") + "/src")
 from xlate.c7n_to_cel import C7N_Rewriter  # noqa: E402
 import celpy.c7nlib as c7nlib  # noqa: E402
 from celpy.adapter import json_to_cel  # noqa: E402
@@ -152,7 +153,7 @@ SAMPLES = {
 
 def table_resources():
     """every resource type named in a table of the translator (string keys of dict literals / comparisons inside the rewriters)"""
-    src = open("/repo/src/xlate/c7n_to_cel.py").read()
+    src = open(os.environ.get("VERIF_REPO", "/repo") + "/src/xlate/c7n_to_cel.py").read()
     tree = ast.parse(src)
     names = set()
     for n in ast.walk(tree):
